@@ -573,9 +573,17 @@ def _run(case, ctx, cfg, env, inst, td0, policy, slice_, W, wdefault):
     saved = (policy.temperature, policy.tanh_clipping)
     if attrs is not None:
         policy.temperature, policy.tanh_clipping = attrs
+    opts0 = (policy.temperature, policy.tanh_clipping, getattr(policy, "mask_logits", None))
     try:
         with torch.no_grad():
             out = ctx.guard(policy, tdin, spy, what=f"policy|{slice_}", **kw)
+        # per-call decoding options are options of the CALL: the policy's configured defaults are what they were
+        # (a later call that does not repeat them must decode with the configured values)
+        opts1 = (policy.temperature, policy.tanh_clipping, getattr(policy, "mask_logits", None))
+        ctx.check(opts1 == opts0, f"policy_options_changed_by_call|{slice_}",
+                  f"(temperature, tanh_clipping, mask_logits) of the policy object were {opts0} before the call with "
+                  f"decoding kwargs {sorted(k_ for k_ in kw if k_ in ('temperature', 'tanh_clipping', 'mask_logits'))} "
+                  f"and are {opts1} after it")
     finally:
         env.check_solution = check0
         policy.temperature, policy.tanh_clipping = saved
